@@ -497,7 +497,7 @@ class Executor:
         for v in node.values:
             last = self.ev(v, env)
             if self.truth(last, v):
-                return last if not isinstance(last, Obj) else Const(True)
+                return last  # `a or b` IS a when a is truthy (the operand, not a boolean)
         return last if not isinstance(last, Obj) else Const(False)
 
     def e_IfExp(self, node, env):
